@@ -481,7 +481,6 @@ class DynEngine(Engine):
           fails.append(('config-str-does-not-parse', '%s: %s; text %r' % (type(e).__name__, str(e)[:200], text)))
       # (3) a text whose every name is provided by its own imports and exists in the universe is accepted
       from harness import findings  # pylint: disable=g-import-not-at-top
-      registered_so_far = set(p.partition('@')[0] for p in pre)
       for ci, stmts in enumerate(case):
         table, dyn, valid = {}, False, True
         taken = [p.partition('@')[2] for p in pre if '@' in p]
@@ -517,26 +516,19 @@ class DynEngine(Engine):
               r = findings._resolve(table, n)
               if not r:
                 if sks[ci] is True or (isinstance(sks[ci], list) and n in sks[ci][1]):
-                  if any(q == n or q.endswith('.' + n) for q in registered_so_far):
-                    # registered (hence not skipped) but not provided by this text's imports: a legitimate NameError
-                    valid, first_bad = False, 'NameError'
-                    break
-                  continue           # covered by skip_unknown: the statement is dropped / the reference becomes a placeholder
+                  # not provided by this text's imports and covered by skip_unknown: the statement is dropped / the
+                  # reference becomes a placeholder -- also when something else (an earlier text, a decorator) registered
+                  # that spelling: "known" means resolvable through the file's imports, independent of what was parsed before
+                  continue
                 valid, first_bad = False, ('NameError' if not sks[ci] or sks[ci] == ['list', []] else None)
                 break
               if r[0] not in w.objs and (sks[ci] is True or (isinstance(sks[ci], list) and n in sks[ci][1])):
-                if any(q == n or q.endswith('.' + n) for q in registered_so_far):
-                  # the dotted name is a suffix of a REGISTERED selector (hence known, not skipped) while this text's own
-                  # import binds its first component to a module without that attribute: a legitimate AttributeError
-                  valid = False
-                  break
-                continue             # a missing attribute is an unknown name too: covered by skip_unknown
+                # a missing attribute is an unknown name too: covered by skip_unknown (again whatever is registered
+                # under a selector this dotted name is a suffix of)
+                continue
               if r[0] not in w.objs:
                 valid, first_bad = False, ('AttributeError' if r[0].rpartition('.')[0] in w.objs or r[0].rpartition('.')[0] in UNIVERSE else None)
                 break
-              registered_so_far.add(r[0])
-              if r[0].rpartition('.')[0] in w.objs and not isinstance(w.objs[r[0].rpartition('.')[0]], type(sys)):
-                registered_so_far.add(r[0].rpartition('.')[0])      # a method registers its class too
               if any(r[0] == t or r[0].startswith(t + '.') for t in taken):
                 valid = False    # a selector already taken by another object is a legitimate ValueError
                 break
